@@ -394,3 +394,87 @@ Section Optimal.
 
 End Optimal.
 
+
+(* ====================================================================== *)
+(*  Distances: exact deficit formula and "never overestimates".            *)
+(* ====================================================================== *)
+Section Deficit.
+  Context {F : Type} {Fo : FieldOps F} {Ff : IsField F}.
+  Add Field MdsDeficitField : (@Fth F Fo Ff).
+  Local Open Scope nat_scope.
+  Local Open Scope F_scope.
+
+  (* |y_i - y_j|^2 = D2_ij - sum over the DISCARDED eigenpairs of lam_t (V_it - V_jt)^2,
+     for any symmetric zero-diagonal distance table, any full oracle answer, any d *)
+  Theorem mds_distance_deficit N d (V : mat F) (Lam s : vec F) (dist : mat F) :
+    two <> 0 -> d <= N ->
+    full_contract N (mds_matrix N dist) V Lam ->
+    meq N N (mmul N V (mtrans V)) mI ->
+    (forall c, c < d -> s c * s c = Lam (N - d + c)%nat) ->
+    (forall i, i < N -> dist i i = 0) ->
+    let Y := scale_cols (select_cols N V ((N - d)%nat, d)) s in
+    forall i j, i < N -> j < N -> i <= j ->
+      sqdist d Y i j =
+        dist i j * dist i j
+        - sumn (N - d) (fun t => Lam t * ((V i t - V j t) * (V i t - V j t))).
+  Proof.
+    intros H2 Hd HC HVVt Hs Hdiag Y i j Hi Hj Hij.
+    assert (HB : forall a b, a < N -> b < N ->
+               mmul d Y (mtrans Y) a b =
+               mds_matrix N dist a b - sumn (N - d) (fun t => V a t * Lam t * V b t)).
+    { intros a b Ha Hb.
+      destruct (mds_factor_partial N d _ V Lam s Hd HC Hs) as [_ Hg]. fold Y in Hg.
+      rewrite Hg. rewrite (spectral_form N _ V Lam HC HVVt a b Ha Hb).
+      set (f := fun t => V a t * Lam t * V b t).
+      replace (sumn N f) with (sumn ((N - d) + d)%nat f) by (f_equal; lia).
+      rewrite sumn_split. unfold f. ring. }
+    rewrite sqdist_from_gram. rewrite !HB by assumption.
+    transitivity ((mds_matrix N dist i i + mds_matrix N dist j j
+                   - mds_matrix N dist i j - mds_matrix N dist j i)
+                  - sumn (N - d) (fun t => Lam t * ((V i t - V j t) * (V i t - V j t)))).
+    { assert (ES : sumn (N - d) (fun t => Lam t * ((V i t - V j t) * (V i t - V j t))) =
+                   sumn (N - d) (fun t => V i t * Lam t * V i t)
+                   + sumn (N - d) (fun t => V j t * Lam t * V j t)
+                   - sumn (N - d) (fun t => V i t * Lam t * V j t)
+                   - sumn (N - d) (fun t => V j t * Lam t * V i t)).
+      { rewrite <- sumn_add, <- !sumn_sub. apply sumn_ext. intros; ring. }
+      rewrite ES. ring. }
+    f_equal.
+    unfold mds_matrix.
+    transitivity ((center_matrix N (dist_sq_matrix dist) i i
+                   + center_matrix N (dist_sq_matrix dist) j j
+                   - center_matrix N (dist_sq_matrix dist) i j
+                   - center_matrix N (dist_sq_matrix dist) j i) * neg_half); [ring|].
+    rewrite centered_form_diff.
+    rewrite (dist_sq_matrix_sym N dist j i Hj Hi).
+    unfold dist_sq_matrix. rewrite !Nat.leb_refl.
+    assert (E : Nat.leb i j = true) by (apply Nat.leb_le; assumption). rewrite E.
+    rewrite (Hdiag i Hi), (Hdiag j Hj). unfold neg_half, two in *. field. assumption.
+  Qed.
+End Deficit.
+
+Section Contract.
+  Context {F : Type} {Fo : FieldOps F} {Ff : IsField F} {Fle : OrderedField F}.
+  Add Field MdsContractField : (@Fth F Fo Ff).
+  Local Open Scope nat_scope.
+  Local Open Scope F_scope.
+
+  (* positive semi-definite case: classical MDS never OVERestimates a distance *)
+  Theorem mds_never_overestimates N d (V : mat F) (Lam s : vec F) (dist : mat F) :
+    two <> 0 -> d <= N ->
+    full_contract N (mds_matrix N dist) V Lam ->
+    meq N N (mmul N V (mtrans V)) mI ->
+    (forall t, t < N - d -> fle 0 (Lam t)) ->
+    (forall c, c < d -> s c * s c = Lam (N - d + c)%nat) ->
+    (forall i, i < N -> dist i i = 0) ->
+    let Y := scale_cols (select_cols N V ((N - d)%nat, d)) s in
+    forall i j, i < N -> j < N -> i <= j ->
+      fle (sqdist d Y i j) (dist i j * dist i j).
+  Proof.
+    intros H2 Hd HC HVVt Hpos Hs Hdiag Y i j Hi Hj Hij. unfold Y.
+    rewrite (mds_distance_deficit N d V Lam s dist H2 Hd HC HVVt Hs Hdiag i j Hi Hj Hij).
+    apply fle_of_sub_nonneg.
+    match goal with |- fle 0 (?a - (?a - ?S)) => replace (a - (a - S)) with S by ring end.
+    apply sumn_nonneg. intros t Ht. apply fle_mul_nonneg; [apply Hpos; assumption|apply fle_sq].
+  Qed.
+End Contract.
